@@ -98,17 +98,30 @@ def flow_list_of(pl):
 
 
 def run_system(pl, flow_list):
-    """find_operating_point with the tape of head-gap evaluations recorded"""
+    """find_operating_point with the tape of head-gap evaluations and the outcome of every scipy root_scalar call recorded"""
+    import scipy.optimize
     from DHLLDV.PipeObj import OperatingPointError
     tape = []
+    solver_calls = []
     orig = pl.calc_system_head
-    state = {'phase': 0}
+    orig_rs = scipy.optimize.root_scalar
 
     def wrapped(Q):
         r = orig(Q)
         tape.append((float(Q), r))
         return r
+
+    def root_scalar(f, *a, **kw):
+        if getattr(f, '__name__', '') != '_head_gap':     # the pump's own speed search also uses root_scalar
+            return orig_rs(f, *a, **kw)
+        rec = {'method': kw.get('method') or ('secant' if 'x1' in kw else None), 'bracket': kw.get('bracket'), 'first_eval': len(tape)}
+        solver_calls.append(rec)
+        res = orig_rs(f, *a, **kw)
+        rec['converged'] = bool(res.converged)
+        rec['root'] = float(res.root)
+        return res
     pl.calc_system_head = wrapped
+    scipy.optimize.root_scalar = root_scalar
     try:
         with warnings.catch_warnings():
             warnings.simplefilter('ignore')
@@ -120,18 +133,27 @@ def run_system(pl, flow_list):
                 out = ('other', type(e).__name__, str(e)[:100])
     finally:
         del pl.calc_system_head
+        scipy.optimize.root_scalar = orig_rs
+    run_system.last_calls = solver_calls
     return out, tape
 
 
 def correspondence(ctx):
     lines, metas = [], []
-    for _ in range(ctx.n(60, 3000)):
-        pl = gen_system(ctx.rng)
-        if pl is None:
-            continue
-        fl = flow_list_of(pl)
-        if ctx.rng.random() < 0.3:
-            tune_marginal(ctx.rng, pl, fl)
+    todo = [('corpus', d) for d in corpus()] + [('gen', None)] * ctx.n(60, 3000)
+    for kind, d in todo:
+        if kind == 'corpus':
+            with warnings.catch_warnings():
+                warnings.simplefilter('ignore')
+                pl = G.rebuild(d)
+            fl = flow_list_of(pl)
+        else:
+            pl = gen_system(ctx.rng)
+            if pl is None:
+                continue
+            fl = flow_list_of(pl)
+            if ctx.rng.random() < 0.3:
+                tune_marginal(ctx.rng, pl, fl)
         try:
             qimin = pl.qimin(fl)
             imins = pl.calc_system_head(qimin)
@@ -148,7 +170,14 @@ def correspondence(ctx):
         # tape[idx] may be the imins evaluation or already the first secant evaluation (both at qimin): keep all from the first one at qimin
         first = min(i for i, (q, r) in enumerate(tape) if same_float(q, qimin))
         sec = tape[first:]
-        toks = [enc(imins[0]), enc(imins[3]), enc(qimin), enc(fl[-1]), str(len(sec))] + [enc(x) for q, r in sec for x in (q, r[0], r[3])]
+        # the heads at the largest flow decide whether the bracketing solver has to be consulted: always on the tape
+        if not any(same_float(q, fl[-1]) for q, r in sec):
+            sec = sec + [(float(fl[-1]), pl.calc_system_head(fl[-1]))]
+        # the outcome of the bracketing solver (external: scipy's brentq), if find_operating_point consulted it
+        br = [c for c in run_system.last_calls if c.get('bracket') is not None]
+        ctx.count('corr_bracket_consulted' if br else 'corr_secant_only')
+        btok = (enc(br[-1]['root']) if br[-1].get('converged') else 'none') if br else 'unconsulted'
+        toks = [enc(imins[0]), enc(imins[3]), enc(qimin), enc(fl[-1]), btok, str(len(sec))] + [enc(x) for q, r in sec for x in (q, r[0], r[3])]
         lines.append('spec.findop ' + ' '.join(toks))
         metas.append((pl, out, qimin))
     outs = run_model(lines)
@@ -181,8 +210,69 @@ def bisect_meet(pl, a, b, n=80):
     return (abs(ga) <= 1e-7 * scale and abs(gb) <= 1e-7 * scale), (a + b) / 2
 
 
+def check_system(ctx, pl, fl, marginal, classes):
+    """every clause of the property on one pump/pipeline system"""
+    desc = G.describe(pl)
+    ctx.count('evaluations')
+    try:
+        with warnings.catch_warnings():
+            warnings.simplefilter('ignore')
+            qimin = pl.qimin(fl)
+            hs_min, _, _, hp_min = pl.calc_system_head(qimin)
+            tab = [pl.calc_system_head(q)[0] for q in fl if q >= fl[0]]
+    except Exception as e:   # noqa
+        ctx.violation(f'minimum-friction search raised {type(e).__name__}: {e}', {'pipeline': desc}, key='qimin')
+        return
+    if hs_min > min(tab) + 0.001 * abs(min(tab)) + 1e-9:
+        # a local minimum of a system curve with two valleys (scipy's bounded Brent converged, but not to the global one) is the listed finding;
+        # anything else (not even a local minimum) is a different violation
+        local = all(pl.calc_system_head(qimin * f)[0] >= hs_min - 1e-9 * abs(hs_min) for f in (0.99, 0.999, 1.001, 1.01))
+        ctx.violation(f'system head at the reported minimum-friction flow {qimin!r} is {hs_min!r}; a tabulated flow has {min(tab)!r}', {'pipeline': desc},
+                      key='qimin-local-minimum' if local else 'qimin')
+    out, _ = run_system(pl, fl)
+    modes = tuple(sorted(s.limited for s in pl.pumps))
+    if out[0] == 'other':
+        ctx.violation(f'find_operating_point raised {out[1]}: {out[2]}', {'pipeline': desc, 'qimin': qimin}, key='other-exception:' + out[1])
+        return
+    if hs_min > hp_min and out[0] != 'OperatingPointError':
+        ctx.violation(f'pump head {hp_min!r} is below system head {hs_min!r} at the minimum-friction flow but {out} was returned', {'pipeline': desc}, key='infeasible')
+    if out[0] == 'flow':
+        q = out[1]
+        hs, _, _, hp = pl.calc_system_head(q)
+        if not (is_real_finite(q) and abs(hs - hp) <= 1e-6 * max(abs(hs), abs(hp), 1.0)):
+            ctx.violation(f'returned flow {q!r} has system head {hs!r} and pump head {hp!r}', {'pipeline': desc}, key='heads-differ')
+    if hs_min <= hp_min:
+        hl, _, _, pl_ = pl.calc_system_head(fl[-1])
+        if hl > pl_:
+            meets, qm = bisect_meet(pl, qimin, fl[-1])
+            if meets:
+                # the search must return a flow right of qimin with equal heads (checked above) at which the system curve crosses from below
+                ok = out[0] == 'flow' and out[1] >= qimin * (1 - 1e-9)
+                if ok:
+                    e = 1e-3 * out[1]
+                    g1 = pl.calc_system_head(out[1] - e)
+                    g2 = pl.calc_system_head(out[1] + e)
+                    ok = (g1[0] - g1[3]) < (g2[0] - g2[3])
+                if not ok:
+                    ctx.violation(f'the curves meet at {qm!r} (right of qimin {qimin!r}) but the search gave {out}', {'pipeline': desc}, key='misses-crossing')
+    classes.add((out[0], modes, marginal))
+
+
+def corpus():
+    """minimised past failures (found by earlier thorough runs, before the C10 repair): they run first on every run"""
+    import json, os
+    path = os.path.join(os.path.dirname(os.path.dirname(os.path.abspath(__file__))), 'corpus', 'C10.json')
+    return [v['input']['pipeline'] for v in json.load(open(path))]
+
+
 def monitor(ctx, extended=False):
     classes = set()
+    for desc in corpus():
+        with warnings.catch_warnings():
+            warnings.simplefilter('ignore')
+            pl = G.rebuild(desc)
+        ctx.count('corpus_systems')
+        check_system(ctx, pl, flow_list_of(pl), 'corpus', classes)
     n = ctx.n(120, 6000) * (2 if extended else 1)
     for _ in range(n):
         r = ctx.rng.random()
@@ -195,50 +285,7 @@ def monitor(ctx, extended=False):
             tune_marginal(ctx.rng, pl, fl)
         elif r < 0.65:
             marginal = 'jump' if tune_jump(ctx.rng, pl, fl) else False
-        desc = G.describe(pl)
-        ctx.count('evaluations')
-        try:
-            with warnings.catch_warnings():
-                warnings.simplefilter('ignore')
-                qimin = pl.qimin(fl)
-                hs_min, _, _, hp_min = pl.calc_system_head(qimin)
-                tab = [pl.calc_system_head(q)[0] for q in fl if q >= fl[0]]
-        except Exception as e:   # noqa
-            ctx.violation(f'minimum-friction search raised {type(e).__name__}: {e}', {'pipeline': desc}, key='qimin')
-            continue
-        if hs_min > min(tab) + 0.001 * abs(min(tab)) + 1e-9:
-            # a local minimum of a system curve with two valleys (scipy's bounded Brent converged, but not to the global one) is the listed finding;
-            # anything else (not even a local minimum) is a different violation
-            local = all(pl.calc_system_head(qimin * f)[0] >= hs_min - 1e-9 * abs(hs_min) for f in (0.99, 0.999, 1.001, 1.01))
-            ctx.violation(f'system head at the reported minimum-friction flow {qimin!r} is {hs_min!r}; a tabulated flow has {min(tab)!r}', {'pipeline': desc},
-                          key='qimin-local-minimum' if local else 'qimin')
-        out, _ = run_system(pl, fl)
-        modes = tuple(sorted(s.limited for s in pl.pumps))
-        if out[0] == 'other':
-            ctx.violation(f'find_operating_point raised {out[1]}: {out[2]}', {'pipeline': desc, 'qimin': qimin}, key='other-exception:' + out[1])
-            continue
-        if hs_min > hp_min and out[0] != 'OperatingPointError':
-            ctx.violation(f'pump head {hp_min!r} is below system head {hs_min!r} at the minimum-friction flow but {out} was returned', {'pipeline': desc}, key='infeasible')
-        if out[0] == 'flow':
-            q = out[1]
-            hs, _, _, hp = pl.calc_system_head(q)
-            if not (is_real_finite(q) and abs(hs - hp) <= 1e-6 * max(abs(hs), abs(hp), 1.0)):
-                ctx.violation(f'returned flow {q!r} has system head {hs!r} and pump head {hp!r}', {'pipeline': desc}, key='heads-differ')
-        if hs_min <= hp_min:
-            hl, _, _, pl_ = pl.calc_system_head(fl[-1])
-            if hl > pl_:
-                meets, qm = bisect_meet(pl, qimin, fl[-1])
-                if meets:
-                    # the search must return a flow right of qimin with equal heads (checked above) at which the system curve crosses from below
-                    ok = out[0] == 'flow' and out[1] >= qimin * (1 - 1e-9)
-                    if ok:
-                        e = 1e-3 * out[1]
-                        g1 = pl.calc_system_head(out[1] - e)
-                        g2 = pl.calc_system_head(out[1] + e)
-                        ok = (g1[0] - g1[3]) < (g2[0] - g2[3])
-                    if not ok:
-                        ctx.violation(f'the curves meet at {qm!r} (right of qimin {qimin!r}) but the search gave {out}', {'pipeline': desc}, key='misses-crossing')
-        classes.add((out[0], modes, marginal))
+        check_system(ctx, pl, fl, marginal, classes)
     ctx.stats['distinct_nontrivial'] = len(classes)
 
 
